@@ -1,6 +1,7 @@
 From Coq Require Import List Arith.
 Import ListNotations.
 From UJ Require Import Engine.Engine Engine.EngineInv Engine.EngineTermInv Engine.EngineComplete.
+From UJ Require Import Base.Graph Cache.Prune Cache.PruneProofs Engine.Queues Engine.QueuesProofs.
 
 (** In any run - successful or not, any interleaving - no call is started more than once. *)
 Theorem C04_at_most_once :
@@ -21,3 +22,38 @@ Theorem C04_only_graph_nodes :
   forall (c : cfg) (s : st) (n : nat), cfg_ok c -> reachable c s -> 0 < lc n s -> In n (nodes (g c)).
 Proof. exact enqueued_in_nodes. Qed.
 Print Assumptions C04_only_graph_nodes.
+
+(** Without a registry the calls of the run graph are exactly the calls the requested output
+    transitively depends on (and the output itself); with no output nothing survives. *)
+Theorem C04_prune_exact :
+  forall (p : pgraph) (output : option nat) (n : nat), is_lit p n = false ->
+  (In n (pnodes (run_graph p output)) <->
+   In n (pnodes p) /\ (output = Some n \/ exists o, output = Some o /\ reach (to_graph p) n o)).
+Proof. exact run_graph_calls. Qed.
+Print Assumptions C04_prune_exact.
+
+Theorem C04_prune_none_empty : forall p : pgraph, pnodes (run_graph p None) = [].
+Proof. exact run_graph_none_empty. Qed.
+Print Assumptions C04_prune_none_empty.
+
+Theorem C04_prune_required_exact :
+  forall (p : pgraph) (required : list nat) (output : option nat) (n : nat), is_lit p n = false ->
+  (In n (pnodes (prune_plan p required output)) <->
+   In n (pnodes p) /\
+   (In n (prune_roots required output) \/
+    exists s, In s (prune_roots required output) /\ reach (to_graph p) n s)).
+Proof. exact prune_keeps_exactly_ancestors. Qed.
+Print Assumptions C04_prune_required_exact.
+
+(** Queue disciplines neither lose nor duplicate items: RandomQueue's put/get are permutations of
+    the bag semantics used by the engine model. *)
+Theorem C04_random_queue_put :
+  forall (A : Type) (i : nat) (x : A) (l l' : list A), rq_put i x l = Some l' -> Permutation.Permutation l' (x :: l).
+Proof. exact @rq_put_perm. Qed.
+Print Assumptions C04_random_queue_put.
+
+Theorem C04_random_queue_get :
+  forall (A : Type) (l : list A) (x : A) (l' : list A),
+  rq_get l = Some (x, l') -> In x l /\ Permutation.Permutation (x :: l') l.
+Proof. exact @rq_get_spec. Qed.
+Print Assumptions C04_random_queue_get.
